@@ -21,7 +21,8 @@ the k-th slot of the NumPy call is the handler's own k-th argument, only strippe
 comprehensions of those) - never transformed or permuted; (R4) out= targets are passed as views of the caller's buffer
 and the result is built from what NumPy returned; (R5) argsort/take/dot/__getitem__ forward their arguments in order;
 (R6) __array_function__ forwards untouched arguments to the handler or to NumPy's own implementation. These are the
-necessary structural conditions for 'attaching units never changes which computation is carried out'."""
+necessary structural conditions for 'attaching units never changes which computation is carried out'.
+(R3, extended) _array_comp_helper returns (a's data, b's data) on every path; (R7) array_equal / array_equiv answer without NumPy only when two unit-carrying operands differ, a bare operand counting as the null unit; (R8) literal defaults of handlers and ndarray-method overrides equal NumPy's own defaults (spec/numpy_defaults.json, table of documented method signatures)."""
 LEVEL_NOTE = """Undecided: the numbers themselves and every NumPy function unyt leaves to NumPy's default implementation.
 Trusted: handler parameter order mirrors NumPy's (the repository's signature-compatibility tests check names and kinds).
 Named exceptions (each with a reason in rules/c06.py): in1d->isin, interp (public np.interp on stripped data),
